@@ -143,6 +143,9 @@ func c11Program(pg *gen.PG, i int) (string, []*canon.Node) {
   (trace! (list :def-in-thunk-saw-foreign-value (thunk-loop%[1]s 60 0)))
   (trace! (list :def-in-future-body @(future (do (def acc-local2 %[2]d) (sleep 1) (= acc-local2 %[2]d)))))
   (trace! (list :shared-memoized-function (reduce + 0 (map shared-memo-square (range %[3]d %[4]d)))))
+  (trace! (list :params-outlive-a-mapped-call (map deref (map (fn (x) (let (t 1) (future (do (sleep 1) (+ x t))))) (list %[2]d (+ %[2]d 1) (+ %[2]d 2))))))
+  (trace! (list :closures-from-a-mapped-call (map (fn (f) (f)) (map (fn (x) (let (t 2) (fn () (+ x t)))) (list %[2]d (+ %[2]d 5))))))
+  (trace! (list :closure-from-apply ((apply (fn (x y) (try (throw 1) (catch e (fn () (list x y e))))) (list %[2]d :y)))))
 `, sfx, tag, i*37, i*37+40)
 	var sb strings.Builder
 	sb.WriteString("(do\n")
